@@ -164,6 +164,52 @@ theorem targets_share_front_end {ρ : Type} (ev : List Tok → Option Bool) (ren
     frontEnd ev render rest t a = frontEnd ev render rest t' a := by
   simp only [frontEnd, frontend_target_independent ev t t' a.user a.file huser hfile]
 
+/-- Follows fix 03ca601 ("reject a second #else and an #elif after the #else of an #if block"), for every state
+    and every evaluator: once an `#else` has been accepted, a further `#else` of that block is the error
+    `ElseAfterElse` and a further `#elif` is `ElifAfterElse` (its condition is still evaluated first, as in the code:
+    a malformed condition is reported before the chain is consulted).  Before the fix both lines were accepted.
+    The rule never looks at the macro table, so it is the same for every target (`unmentioned_define_irrelevant`
+    covers the new errors: `PErr` equality includes them). -/
+theorem no_branch_after_else (ev : List Tok → Option Bool) (st st' : St)
+    (h : step ev st .else_ = .ok st') :
+    step ev st' .else_ = .error .elseAfterElse ∧
+    ∀ c, step ev st' (.elif c) = .error .elifAfterElse ∨ step ev st' (.elif c) = .error .badCondition := by
+  have hsw : ∀ a ch ch', switch a true ch = .ok ch' → ∃ g r, ch' = ⟨g, true⟩ :: r := by
+    intro a ch ch' hs
+    cases ch with
+    | nil => cases hs
+    | cons b r =>
+      simp only [switch] at hs
+      cases hb : b.seenElse with
+      | true => simp [hb] at hs
+      | false =>
+        simp only [hb, Bool.false_eq_true, if_false, Except.ok.injEq] at hs
+        exact ⟨_, r, hs.symm⟩
+  simp only [step] at h
+  cases hs : switch true true st.chain with
+  | error e => simp [hs] at h
+  | ok ch' =>
+    simp only [hs, Except.ok.injEq] at h
+    obtain ⟨g, r, rfl⟩ := hsw _ _ _ hs
+    subst h
+    refine ⟨by simp [step, switch], fun c => ?_⟩
+    simp only [step, switch]
+    cases condValue ev st.macros c with
+    | none => exact .inr rfl
+    | some a => exact .inl (by simp)
+
+/-- non-vacuity of `no_branch_after_else`, and the first branch after the `#if` is unaffected: the two
+    reproducers of the fix (`#if 0 / #else / a / #else / b / #endif`, `.. / #elif 1 / ..`) are rejected with the
+    new errors, `#if / #elif / #else / #endif` is still accepted -/
+example :
+    run (fun ts => match ts with | [.lit n] => some (n != 0) | _ => none) (initialTable .HlslForDirectX [])
+      [.if_ [.lit 0], .else_, .text [.id "a"], .else_, .text [.id "b"], .endif] = .error .elseAfterElse ∧
+    run (fun ts => match ts with | [.lit n] => some (n != 0) | _ => none) (initialTable .Msl [])
+      [.if_ [.lit 0], .else_, .text [.id "a"], .elif [.lit 1], .text [.id "b"], .endif] = .error .elifAfterElse ∧
+    run (fun ts => match ts with | [.lit n] => some (n != 0) | _ => none) (initialTable .Msl [])
+      [.if_ [.lit 0], .text [.id "a"], .elif [.lit 1], .text [.id "b"], .else_, .text [.id "c"], .endif]
+      = .ok [.id "b"] := by decide
+
 /-! ## 2. Stage reports and pipeline state -/
 
 /-- Tie to the source: both HLSL flavours go through one match arm that zips the pipeline's stages (kind and
@@ -245,6 +291,32 @@ theorem kindTable_eq (b : Backend) (k : ObjKind) : kindTable b k = hlslDescripto
   · rfl
   · exact (descriptor_tables_equal.1 k).symm
 
+/-- Follows fix 774c0b4 ("a global of an object type that is not a resource is not given a register"): the object
+    kinds either exporter can reflect are exactly kinds with a register class, so the allocator's new rule "no
+    register class, no slot" (`hasSlot`) never hides a declaration that `analyse_bindings` would report. -/
+theorem reflected_kinds_are_resources (b : Backend) (k : ObjKind) (dk : DescKind)
+    (h : kindTable b k = some dk) : (registerType k).isSome = true := by
+  rw [kindTable_eq] at h
+  cases k <;> first | rfl | (exact nomatch h)
+
+/-- ... and a global of a kind that is not a resource (`RayDesc`, `RayQuery`, `TriangleStream`, the mips views) is
+    refused by every back end under every parameter set, array or not: the targets agree (before the fix DirectX
+    panicked in `get_register_type` while the other configurations reported the export error).  Replayed on the real
+    compiler by the `nonresource*` variants of `C18.cross`. -/
+theorem non_resource_global_refused_on_every_target (rn : NameMaps) (b : Backend) (p : Params) (n : String)
+    (k : ObjKind) (arr : Arr) (ss : Bool) (h : registerType k = none) :
+    report rn b p ⟨n, .object k arr ss⟩ = .error .unsupportedObjectType ∧ hasSlot p (.object k arr ss) = false := by
+  have hk : kindTable b k = none := by
+    cases hd : kindTable b k with
+    | none => rfl
+    | some dk => have := reflected_kinds_are_resources b k dk hd; simp [h] at this
+  simp [report, hk, hasSlot, h]
+
+/-- non-vacuity: such kinds exist, and resource kinds are not affected -/
+example : registerType .RayDesc = none ∧ registerType .RayQuery = none ∧ registerType .TriangleStream = none ∧
+    (bindingsFor codeNameMaps .HlslForDirectX false [⟨"g", .object .Texture2D .single false⟩]).map List.length = .ok 1 := by
+  decide
+
 /-- Descriptor kind and count are functions of the declaration only: whatever the back end, the name maps and the
     binding parameters, a reflected binding carries `declDescriptor` of its declaration and the back end's
     reported name for it. -/
@@ -297,7 +369,7 @@ theorem report_shared (rn : NameMaps) (b b' : Backend) (p p' : Params) (d : Decl
       simp only [aside, Bool.or_eq_false_iff] at h
       exact h.1
     subst hss
-    simp only [report, kindTable_eq, hasSlot, Bool.false_and, Bool.not_false, Bool.true_and, hnf]
+    simp only [report, kindTable_eq, hasSlot, Bool.false_and, Bool.not_false, hnf]
   | plain arr => rfl
 
 /-- a static sampler or buffer address contributes nothing to the compared part -/
